@@ -164,8 +164,14 @@ def random_project(
                 continue
             t = rnd.choice(cands)
             if rnd.random() < name_imports:
-                kind = rnd.choice(["name", "star"])
-                lines.append(f"from {t} import {'some_function' if kind == 'name' else '*'}")
+                kind = rnd.choice(["name", "star", "mixed"])
+                kids = [c for c in cands if c.rsplit(".", 1)[0] == t and c != me]
+                if kind == "mixed" and kids:
+                    # one statement naming a sub module of t and a plain name of t: imports t.<kid> and t
+                    k = rnd.choice(kids).rsplit(".", 1)[1]
+                    lines.append(f"from {t} import " + rnd.choice([f"{k}, some_function", f"some_function, {k}"]))
+                else:
+                    lines.append(f"from {t} import {'*' if kind == 'star' else 'some_function'}")
             else:
                 lines.append(render_import(rnd, root, f, t, targets, strip_prefix)[0])
         lines.append("def some_function():\n    return 1")
